@@ -75,7 +75,7 @@ def pkg_harnesses(pkgdir):
     return pkgname, names
 
 
-def run_gosym(workdir, programs, workers=None, samples=3, solver="z3", tag="run"):
+def run_gosym(workdir, programs, workers=None, samples=3, solver="z3", tag="run", xcheck=None):
     os.makedirs(workdir, exist_ok=True)
     pats = sorted({"./" + p["pkg"] for p in programs})
     spec = {
@@ -95,7 +95,12 @@ def run_gosym(workdir, programs, workers=None, samples=3, solver="z3", tag="run"
         os.remove(rp)
     json.dump(spec, open(sp, "w"), indent=1)
     t0 = time.time()
-    r = subprocess.run([BIN, "run", "-spec", sp, "-out", rp], env=GOENV, stdout=subprocess.PIPE, text=True)
+    env = dict(GOENV)
+    if xcheck:
+        # thorough tier: every 10th assertion query is re-decided from scratch by a second solver
+        os.makedirs(os.path.join(VERIF, "work", "tmp"), exist_ok=True)
+        env.update(GOSYM_XCHECK=xcheck, GOSYM_XCHECK_EVERY=os.environ.get("GOSYM_XCHECK_EVERY", "10"), GOSYM_TMP=os.path.join(VERIF, "work", "tmp"))
+    r = subprocess.run([BIN, "run", "-spec", sp, "-out", rp], env=env, stdout=subprocess.PIPE, text=True)
     if not os.path.exists(rp):
         log("gosym failed:", r.stdout[-2000:])
         return None, r.returncode
@@ -281,7 +286,7 @@ def run_check(prop, P, tier, seed):
     work = os.path.join(VERIF, "work", "%s-%s" % (prop, tier))
     shutil.rmtree(work, ignore_errors=True)
     os.makedirs(work, exist_ok=True)
-    results, code = run_gosym(work, programs, samples=3)
+    results, code = run_gosym(work, programs, samples=3, xcheck=("z3-new" if tier == "thorough" else os.environ.get("GOSYM_XCHECK")))
     evidence_path = os.path.join(VERIF, "evidence", prop + ".json")
     os.makedirs(os.path.dirname(evidence_path), exist_ok=True)
     if results is None:
@@ -416,7 +421,9 @@ def run_check(prop, P, tier, seed):
             "paths_total": tot("paths"), "paths_pruned_by_assume": tot("paths_pruned_by_assume"), "paths_exhausted_case_splits": tot("paths_exhausted"),
             "solver_queries": tot("solver_queries"), "sat": tot("sat"), "unsat": tot("unsat"), "unknown": tot("unknown"),
             "assertion_queries": tot("assert_queries"), "assertions_concrete": tot("asserts_concrete"),
-            "solver_s": round(sum(r.get("solver_s") or 0 for r in results), 2), "solvers": ["z3 4.8.12"],
+            "solver_s": round(sum(r.get("solver_s") or 0 for r in results), 2),
+            "solvers": ["z3 4.8.12"] + (["z3 5.1.0 (cross-check of sampled assertion queries)"] if tot("cross_checked_queries") else []),
+            "disagreements_checked": tot("cross_checked_queries"), "solver_disagreements": tot("cross_check_disagreements"),
             "ssa_steps": tot("ssa_steps"), "fmt_placeholders": tot("fmt_placeholders"),
             "functions_encoded": {"repo": funcs_repo, "intrinsic_or_stub": funcs_intr, "dependency_functions_interpreted": max([r.get("functions_dependency") or 0 for r in results] or [0])},
             "bounds": P.get("bounds", {}).get(tier, P.get("bounds", {}).get("quick", "")),
